@@ -2,6 +2,7 @@
 // in [group_min, group_max] from the image sorted by target.
 verus! {
 
+#[verifier::opaque]
 spec fn sorted_by_to(s: Seq<Transition>) -> bool {
     forall|i: int, j: int| 0 <= i <= j < s.len() ==> s[i].to <= s[j].to
 }
